@@ -216,8 +216,18 @@ static ASMJIT_FAVOR_SIZE Error validate(InstDB::Mode mode, const BaseInst& inst,
     }
 
     if (Support::test(options, kXAcqXRel)) {
-      if (ASMJIT_UNLIKELY(!Support::test(options, InstOptions::kX86_Lock) || (options & kXAcqXRel) == kXAcqXRel)) {
+      // XACQUIRE|XRELEASE require LOCK with one exception: XRELEASE can be used with an instruction that is not
+      // lockable (MOV mem, reg|imm), which then must have a memory destination.
+      bool xrelease_without_lock = !Support::test(options, InstOptions::kX86_Lock | InstOptions::kX86_XAcquire) &&
+                                   !Support::test(inst_flags, InstDB::InstFlags::kLock) &&
+                                   Support::test(inst_flags, InstDB::InstFlags::kXRelease);
+
+      if (ASMJIT_UNLIKELY((!Support::test(options, InstOptions::kX86_Lock) && !xrelease_without_lock) || (options & kXAcqXRel) == kXAcqXRel)) {
         return make_error(Error::kInvalidPrefixCombination);
+      }
+
+      if (ASMJIT_UNLIKELY(xrelease_without_lock && (op_count < 1 || !operands[0].is_mem()))) {
+        return make_error(Error::kInvalidXReleasePrefix);
       }
 
       if (ASMJIT_UNLIKELY(Support::test(options, InstOptions::kX86_XAcquire) && !Support::test(inst_flags, InstDB::InstFlags::kXAcquire))) {
